@@ -13,6 +13,10 @@ FOLLOW = ["total", "tell", "tracks", "songs", "meta", "tickall 3000 " + GRAN, "a
           "rewind", "playlog 20000 1024", "seek 5:0", "rewind", "loop 1", "loopcount 2", "tickall 400 " + GRAN, "loop 0", "meta", "total"]
 
 
+def rng_pick(ctx):
+    return ctx.rng.choice([0, 1, 2, 3])
+
+
 def images(ctx):
     rng = ctx.rng
     quick = ctx.tier == "quick"
@@ -20,7 +24,7 @@ def images(ctx):
     for img in gen_smf.tail_cases():
         out.append(("smf-tail", img))
     for i in range(6 if quick else 200):
-        song = gen_smf.gen_song(rng)
+        song = gen_smf.gen_song(rng, loops="stack" if i % 3 == 2 else None, ntracks=rng.choice([2, 3]) if i % 3 == 2 else None)
         img = song.encode(running_status=rng.random() < 0.5, drop_eot=(0,) if rng.random() < 0.2 else ())
         out.append(("smf-valid", img))
         for m in gen_smf.mutate(rng, img, 4 if quick else 25):
@@ -74,7 +78,7 @@ def run(tier, replay=None):
             if len(group) == 4 or k == len(imgs) - 1:
                 h = list(sq.PREFIX) + ["usage"]
                 for (kd, im) in group:
-                    h += ["opendata " + im.hex()] + FOLLOW + ["usage"]
+                    h += ["opendata " + im.hex()] + FOLLOW + ["selectsong %d" % rng_pick(ctx)] + ["usage"]
                 hs.append((h, "+".join(sorted(set(kd for kd, _ in group))), sum(len(im) for _, im in group)))
                 group = []
     res = sq.run([h for h, _, _ in hs], timeout=1200)
